@@ -1,10 +1,125 @@
-/- Driver for `kind = "c14"` (and `"c14:…"`) cases. -/
+/- Driver for `kind = "c14:…"` cases: runs the model `Askar.Jwk` (configuration `Cfg.current`). -/
 import Driver.Common
+import AskarModel.Model.Jwk
+import AskarModel.Crypto.Ec
 
-open Lean
+open Lean Askar Askar.Jwk
 
 namespace Driver.C14
 
-def runCase (_j : Json) : Json := jerr "not implemented"
+def algOfName (s : String) : Option Alg := Alg.all.find? fun a => a.name == s
+
+def curveOf : Alg → Option Ec.Curve
+  | .p256 => some Ec.p256
+  | .p384 => some Ec.p384
+  | .k256 => some Ec.k256
+  | _ => none
+
+def missing : Bytes := sb "MISSING-HINT"
+
+/-- table lookup in the case's `prim` object: hex → some bytes, null → none (rejected), absent → a marker value -/
+def hint (prim : Json) (key : String) : Option Bytes :=
+  match prim.getObjVal? key with
+  | .ok (.str s) => some ((Bytes.ofHex s).getD missing)
+  | .ok .null => none
+  | _ => some missing
+
+/-- the curve operations: native arithmetic for the Weierstrass curves, the case's table (computed by the harness with the
+    third-party crates through askar) for Ed25519 / X25519 / BLS12-381 -/
+def prims (prim : Json) : Prims :=
+  { pubOf := fun alg b =>
+      match curveOf alg with
+      | some c => c.pubOf b
+      | none =>
+        if alg = .blsG1G2 then
+          match hint prim ("pub:bls12381g1:" ++ Bytes.toHex b), hint prim ("pub:bls12381g2:" ++ Bytes.toHex b) with
+          | some p1, some p2 => some (p1 ++ p2)
+          | _, _ => none
+        else hint prim ("pub:" ++ alg.name ++ ":" ++ Bytes.toHex b)
+    fromAffine := fun alg x y =>
+      match curveOf alg with
+      | some c => c.fromAffine x y
+      | none => none
+    decodePub := fun alg b =>
+      match curveOf alg with
+      | some c => c.fromSec1 b
+      | none => hint prim ("dec:" ++ alg.name ++ ":" ++ Bytes.toHex b) }
+
+def ascii (b : Bytes) : String := String.ofList (b.map fun c => Char.ofNat c.toNat)
+
+def jres {α} (f : α → Json) : Res α → Json
+  | .ok a => f a
+  | .err e => jerr e.name
+  | .panic _ => jerr "Panic"
+
+def jopt (o : Option Bytes) : Json :=
+  match o with
+  | some b => jhex b
+  | none => .null
+
+def jparts (p : Parts) : Json :=
+  Json.mkObj [("kty", jhex p.kty), ("kid", jopt p.kid), ("alg", jopt p.alg), ("crv", jopt p.crv), ("x", jopt p.x),
+    ("y", jopt p.y), ("d", jopt p.d), ("k", jopt p.k),
+    ("key_ops", match p.keyOps with | some n => jnat n | none => .null)]
+
+def jtext (r : Res Bytes) : Json := jres (fun b => Json.str (ascii b)) r
+
+def views (k : Key) (alg : Option Alg) : List (String × Json) :=
+  [("jwk_public", jtext (toJwk k .publicKey alg)), ("thumb_pre", jtext (toJwk k .thumbprint alg))]
+
+def jkey (k : Key) : Json :=
+  Json.mkObj ([("alg", Json.str k.alg.name), ("secret", jres jhex (toSecretBytes k)), ("public", jres jhex (toPublicBytes k)),
+    ("jwk_secret", jtext (toJwk k .secretKey none))] ++ views k none
+    ++ (if k.alg = .blsG1G2 then
+          [("g1", Json.mkObj (views k (some .blsG1))), ("g2", Json.mkObj (views k (some .blsG2)))]
+        else []))
+
+def jvalOf (j : Json) : JVal :=
+  match str! j "t" with
+  | "str" => .str (hex! j "v")
+  | "strarr" => .strArr ((arr! j "v").map fun x => (Bytes.ofHex (asStr x)).getD [])
+  | "num" => .num
+  | "bool" => .bool
+  | "null" => .null
+  | "arr" => .arr
+  | _ => .obj
+
+def membersOf (j : Json) : Option (List (Bytes × JVal)) :=
+  match j.getObjVal? "members" with
+  | .ok (.arr a) => some (a.toList.map fun m =>
+      match m with
+      | .arr #[k, v] => ((Bytes.ofHex (asStr k)).getD [], jvalOf v)
+      | _ => ([], .null))
+  | _ => none
+
+def runCase (j : Json) : Json :=
+  let cfg := Cfg.current
+  let kind := str! j "kind"
+  let prim := (j.getObjVal? "prim").toOption.getD (Json.mkObj [])
+  let P := prims prim
+  if kind == "c14:b64" then
+    jres (fun b => Json.mkObj [("ok", jhex b)]) (decodeBase64 (some (hex! j "hex")) (nat! j "n"))
+  else if kind == "c14:parse" then
+    let byteLevel := parseJwk cfg (hex! j "hex")
+    let out := match byteLevel with
+      | some p => Json.mkObj [("parts", jparts p)]
+      | none => jerr "Invalid"
+    match membersOf j with
+    | some ms =>
+      if visit cfg ms = byteLevel then out
+      else Json.mkObj [("layer_mismatch", Json.mkObj [("bytes", out),
+        ("tokens", match visit cfg ms with | some p => jparts p | none => jerr "Invalid")])]
+    | none => out
+  else if kind == "c14:jwk" then
+    jres jkey (fromJwk cfg P (hex! j "hex"))
+  else if kind == "c14:secret" then
+    match algOfName (str! j "alg") with
+    | some alg => jres jkey (fromSecretBytes cfg P alg (hex! j "bytes"))
+    | none => jerr "unknown alg"
+  else if kind == "c14:public" then
+    match algOfName (str! j "alg") with
+    | some alg => jres jkey (fromPublicBytes P alg (hex! j "bytes"))
+    | none => jerr "unknown alg"
+  else jerr ("unknown kind " ++ kind)
 
 end Driver.C14
